@@ -37,3 +37,22 @@ PROPS['C04'] = _alloc('C04', 'No block is issued twice without a successful Free
 PROPS['C05'] = _alloc('C05', 'Every allocation is a block of the pool of the right length; Allocate fails (no address available, state unchanged) iff all N blocks are outstanding; no other error or panic.', 'alloc4_in_range, alloc4_fails_iff_full, alloc6_shape, alloc6_fails_iff_full, new6_valid, new4_inv')
 PROPS['C06'] = _alloc('C06', 'Free succeeds iff the prefix names an outstanding block, then releases exactly it; otherwise error and no effect, for prefixes at any distance below/above the pool.', 'free4_ok_iff, to_offset4_iff, free6_ok_iff, free_idx6_outside, free_idx6_inside')
 PROPS['C07'] = _alloc('C07', 'A hint naming a free block is honoured exactly (4- and 16-byte IPv4 forms, any IPv6 address inside the block).', 'hint4_honoured, hint6_honoured, hint_idx6_inside, hint4_names')
+
+RANGE_TRUSTED = ['modelled not verified: sqlite3/database-sql (leases4 as a list of rows with primary key (mac, ip), insert-or-replace, NUMERIC affinity of the `string` mac column reproduced by mac_affinity, one statement atomic); net.HardwareAddr.String, the plugin\'s parseHWAddr, net.IP.To4 (coq/model/RangePlugin.v, lib/Net.v); the bitset library subset (lib/Bitset.v); sync.Mutex (Handler4 is one critical section)',
+                 'one clock reading per Handler4 call in the model (the code reads the clock up to three times within one call); hostnames do not influence bindings']
+RANGE_ASSUME = ['chaddr bytes < 256; the range is what setupRange accepts (start < end, both IPv4); histories start from Setup4 on an empty database; restarts re-mark stored leases in an arbitrary order (any permutation)',
+                'crash points inside Handler4: sqlite executes one insert-or-replace atomically, so the database at a crash is the one before or after the statement - both are states the theorems quantify over']
+PROPS['C02'] = {
+    'props': 'props/C02.v', 'run_models': ['model/RangeRun.v'],
+    'trusted': RANGE_TRUSTED, 'assumes': RANGE_ASSUME, 'impl_timeout': 3000,
+    'level_text': 'Theorems (coq/props/C02.v) over every history of requests (any chaddr of any length, any hostname) and restarts (any re-marking order) from Setup4 on an empty database: range_never_fails (no panic, no start-up error), range_in_range (every yiaddr is a 4-byte address in [start,end]), range_unique_sticky (two replies carry the same address iff they answer the same chaddr), range_lease_time (option 51 = configured lease), range_exhaustion (a request is dropped only if its client is unknown and all N addresses are bound; a client that was ever answered is never dropped; an unknown client is served while an address is free). Proved by an invariant (records injective, image = allocator bits, database rows = records) by induction over the history, on top of the allocator refinement (C04-C07). The model of plugin.go/storage.go is run against Plugin.Setup4 + handler on real sqlite files with restarts, and monitors restate every clause on the implementation.',
+    'level_note': 'Trusted: Coq kernel; hand-written Gallina model of range/plugin.go and storage.go incl. the sqlite table semantics and NUMERIC affinity, tied to the code by the differential correspondence on every run; one clock reading per call. All schedules: Handler4 holds the plugin mutex for the whole call. No axioms.',
+    'technique': 'Coq proof (state invariant + induction over request/restart histories, on the allocator refinement) + differential correspondence against Plugin.Setup4/handler on real sqlite files + monitors',
+}
+PROPS['C03'] = {
+    'props': 'props/C03.v', 'run_models': ['model/RangeRun.v'],
+    'trusted': RANGE_TRUSTED, 'assumes': RANGE_ASSUME, 'impl_timeout': 3000,
+    'level_text': 'Theorems (coq/props/C03.v): restart_restores - after every history (every prefix is a restart point) setupRange on the database written so far succeeds for every re-marking order, and the restored table contains every (chaddr, address) handed out so far, nothing that was not handed out, and is a bijection (none lost, changed or duplicated) - for hardware addresses of any length and arbitrary hostnames, with sqlite NUMERIC affinity on the mac column in the model; expiry_covers_promise - after a reply at clock reading t the row of that client has expiry*1s > t + lease - 1s; db_text_roundtrip - the text the plugin writes for any hardware address, as sqlite returns it, parses back to that address. The model is run against the real plugin on real sqlite files: a copy of the file after requests is reopened by a fresh Setup4 and all bound clients are probed.',
+    'level_note': 'Trusted: Coq kernel; hand-written Gallina model incl. sqlite table semantics/affinity (validated by reading the real table through a second connection on every run); sqlite single-statement atomicity for mid-handler crash points; one clock reading per call. No axioms.',
+    'technique': 'Coq proof (invariant database rows = records, load/parse round trip, induction over histories, permutation-independent re-marking) + differential correspondence with crash-point copies of real sqlite files + monitors',
+}
